@@ -496,7 +496,7 @@ def run_case(sh, s, d, case):
 
 
 def crafted(sh, d, case):
-    """deterministic witnesses of the two known blob findings"""
+    """deterministic scenarios: the known blob-wrapper pack finding, and (regression, fixed by b982a9a) savepoint blob files"""
     import ZODB
     import ZODB.MappingStorage
     import ZODB.blob
@@ -533,6 +533,20 @@ def crafted(sh, d, case):
         if got != b'bytes at savepoint 0':
             sh.violation('c13:%s:blob-bytes-after-rollback-differ-from-savepoint:blob-stored-again-by-a-later-savepoint' % kind,
                          {'crafted': True, 'got': got}, case)
+        # second sequence: the savepoint rolled back to holds nothing of the blob - the committed bytes must come back
+        tm.begin()
+        spa = tm.savepoint()
+        with c.root()['b'].open('w') as f:
+            f.write(b'bytes at a later savepoint')
+        tm.savepoint()
+        spa.rollback()
+        with c.root()['b'].open('r') as f:
+            got = f.read()
+        tm.abort()
+        if got != b'revision A':
+            sh.violation('c13:%s:blob-bytes-after-rollback-differ-from-savepoint:file-of-a-rolled-back-savepoint-still-used' % kind,
+                         {'crafted': True, 'got': got}, case)
+        sh.count('crafted_savepoint_blob_scenarios')
     else:
         t1 = st.lastTransaction()
         for data in (b'revision B', b'revision C'):
@@ -559,6 +573,10 @@ def crafted(sh, d, case):
 def run_shard(params):
     logging.disable(logging.CRITICAL)
     sh = Shard(params)
+    if params.get('shard', 0) < 2:
+        # fixed regression scenario (known finding until fix b982a9a)
+        ccase = {'crafted': 'savepoint-overwrite', 'kind': ('file', 'blobwrap')[params.get('shard', 0)]}
+        guarded(sh, 'c13', ccase, lambda: crafted(sh, sh.fresh_dir('c13'), ccase))
     for i in case_indices(params):
         if not sh.time_left():
             break
